@@ -48,6 +48,10 @@ func Corpus() []Scenario {
 		{Name: "pending-exists-then-readd", K: 2, Ops: []Op{ // appended, removed and put back before the observer heard of it at all
 			sel(0, 0), sel(1, 0), app(0, 0), mv(0, []int{1}, 1), sel(0, 1), mv(0, []int{1}, 0), sel(0, 0),
 			drain(1), cmd(1, "search"), cmd(1, "probe"), qs(1)}},
+		{Name: "held-readd-below-announced", K: 2, Ops: []Op{ // a message is put back (held) and a newer one is announced meanwhile
+			sel(0, 0), sel(1, 0), app(0, 0), drain(1), cmd(1, "noop"), cmd(1, "probe"),
+			mv(0, []int{1}, 1), sel(0, 1), mv(0, []int{1}, 0), sel(0, 0), app(0, 0),
+			drain(1), cmd(1, "search"), cmd(1, "probe"), qs(1)}},
 		{Name: "idle-bulk", K: 2, Bulk: true, Ops: []Op{
 			sel(0, 0), sel(1, 0), cmd(1, "idle"), app(0, 0), app(0, 0, 2), drain(1), store(0, []int{1}, "add", false, 3), drain(1),
 			cmd(1, "done"), cmd(1, "probe")}},
